@@ -59,6 +59,8 @@ func runC18(r *Run) {
 	r.rule("C18.R4", "SetOrderInitGenesis: a module whose InitGenesis call tree reads a family of another module comes after it", 5)
 	r.rule("C18.R5", "exporters do not filter: inside the iterations of ExportGenesis / GetAll* / All* every element is appended (grouping flushes and decoding successes aside)", 10)
 	r.rule("C18.R6", "genesis validation admits every state the live code can write: same-block opt-in/opt-out heights; a record completing at the import height (C03.R4 class)", 2)
+	r.rule("C18.R7", "the importer is the inverse of the exporter: every exported element is stored under a key taken from the element; an address exported as text is read back with the decoder of the same kind", 8)
+	c18ImportInverse(r)
 	iteratorVisitsAllRule(r, "C18.R5", map[string]bool{"x/avs/keeper.Keeper.IterateAVSInfo": true, "x/avs/keeper.Keeper.IterateTaskAVSInfo": true, "x/avs/keeper.Keeper.IterateResultInfo": true, "x/assets/keeper.Keeper.IterateAllClientChains": true, "x/epochs/keeper.Keeper.IterateEpochInfos": true})
 	{
 		n := 0
@@ -73,7 +75,9 @@ func runC18(r *Run) {
 				continue
 			}
 			nm := v.Decl.Name.Name
-			if !(nm == "ExportGenesis" || strings.HasPrefix(nm, "GetAll") || strings.HasPrefix(nm, "All")) {
+			// All<Something> getters (AllDelegationStates …), not every name that starts with these letters (Allocate…)
+			isAllGetter := strings.HasPrefix(nm, "All") && len(nm) > 3 && nm[3] >= 'A' && nm[3] <= 'Z'
+			if !(nm == "ExportGenesis" || strings.HasPrefix(nm, "GetAll") || isAllGetter) {
 				continue
 			}
 			n++
@@ -243,6 +247,30 @@ func runC18(r *Run) {
 		}
 		r.check(len(miss) == 0, "C18.R1", key, w.pos(exp.Pos()), e.R.famName(fam)+" is "+desc, e.R.famName(fam)+": "+strings.Join(miss, "; "))
 	}
+	// the consensus-address lookup (operator 0x0a) outlives the current-key record on purpose: a replaced key
+	// stays resolvable until dogfood prunes it. "Rebuilt on import" therefore needs a rebuilder for every
+	// place that retains a key: the current-key records, the previous-key records, dogfood's pruning queue.
+	if c18Derived["operator:0x0a"] != "" && live["W operator:0x0a"] {
+		opInit, dogInit := initOf["operator"], initOf["dogfood"]
+		// (ii) the importer of the previous-key family also writes the lookup
+		okPrev := false
+		if opInit != nil {
+			for fn := range e.Direct {
+				if !w.fnInScope(fn) {
+					continue
+				}
+				ws := directFams(e, fn, "W")
+				if ws["operator:0x08"] && ws["operator:0x0a"] && reachesFn(w, opInit, fn) {
+					okPrev = true
+				}
+			}
+		}
+		r.check(okPrev, "C18.R1", "derived|operator:0x0a|prev-key", "-", "the import of a previous-key record restores the consensus-address lookup of that key", "no importer writes the consensus-address lookup together with the previous-key record: a key replaced in the exported epoch (still in the validator set) no longer resolves after import, and dogfood InitGenesis panics on it")
+		// (iii) the importer of dogfood's pruning queue (or anything else under InitGenesis) restores the lookup
+		// of the queued addresses
+		okQueue := dogInit != nil && e.Sum[dogInit]["W operator:0x0a"]
+		r.check(okQueue, "C18.R1", "derived|operator:0x0a|older-retained-keys", "-", "the consensus addresses queued for pruning get their lookup back on import", "the lookup of keys replaced in an earlier epoch and still queued for pruning (dogfood 0x05) is neither exported nor restored by the dogfood import (the queue has no operator): after import they do not resolve - not slashable, free for another operator, and the pruning deletes nothing")
+	}
 	// R1t
 	beginSum := sumOf(e, cat.Fns("beginblock", "epochhook"))
 	var dogEnd *ssa.Function
@@ -396,4 +424,11 @@ func c18InitOrder(r *Run, e *Effects, initOf map[string]*ssa.Function) {
 		r.check(len(late) == 0, "C18.R4", "order|"+m, v.pos(v.Decl), fmt.Sprintf("InitGenesis of %s reads %v, all initialised earlier", m, dl),
 			fmt.Sprintf("InitGenesis of %s reads state of %v, which SetOrderInitGenesis initialises later (or not at all)", m, late))
 	}
+}
+
+// reachesFn: fn is reachable from root in the call graph (repo functions only).
+func reachesFn(w *World, root, fn *ssa.Function) bool {
+	parent := w.Reach([]*ssa.Function{root}, func(f *ssa.Function) bool { return !w.fnInScope(f) && f.Pkg != nil })
+	_, ok := parent[fn]
+	return ok
 }
